@@ -2,7 +2,16 @@ package c10
 
 import (
 	"context"
+	"encoding/json"
 	"fmt"
+	"go/ast"
+	"go/parser"
+	"go/token"
+	"os"
+	"path/filepath"
+	"reflect"
+	"runtime"
+	"sort"
 	"strings"
 	"time"
 
@@ -61,6 +70,288 @@ func init() {
 		}
 		fmt.Fprintf(&b, "def key01 : String := %s\n", hx.LeanString(k1))
 		fmt.Fprintf(&b, "def key02 : String := %s\n", hx.LeanString(k2))
+		lf, err := lockFacts()
+		if err != nil {
+			return "", err
+		}
+		b.WriteString(lf)
 		return b.String(), nil
 	})
+}
+
+// ---- facts read from the CURRENT source with go/parser: every call of the queue is one atomic step ----
+//
+// The concurrency theorems (Spec.C10 §6) treat every AddBatch / Next / Load call as one atomic step of the model.
+// That is what the code does iff every method of BatchQueue takes bq.mu first and holds it until it returns, nobody
+// else touches the queue's fields, and a Sequencer call contains at most one queue call and mutates nothing else.
+// No type information is used (heuristics by name: receiver type BatchQueue / Sequencer, the Sequencer's field
+// `queue`); a Go build overlay (VERIF_OVERLAY or GOFLAGS -overlay=…) is honoured like harness/streams/c13/facts.go.
+
+func singleDir() string {
+	if d := os.Getenv("VERIF_REPO"); d != "" {
+		return filepath.Join(d, "sequencers", "single")
+	}
+	if f := runtime.FuncForPC(reflect.ValueOf(single.NewBatchQueue).Pointer()); f != nil {
+		file, _ := f.FileLine(f.Entry())
+		if file != "" {
+			if _, err := os.Stat(filepath.Join(filepath.Dir(file), "sequencer.go")); err == nil {
+				return filepath.Dir(file)
+			}
+		}
+	}
+	return "/repo/sequencers/single"
+}
+
+func overlayMap() map[string]string {
+	out := map[string]string{}
+	path := os.Getenv("VERIF_OVERLAY")
+	if path == "" {
+		for _, f := range strings.Fields(os.Getenv("GOFLAGS")) {
+			if strings.HasPrefix(f, "-overlay=") {
+				path = strings.TrimPrefix(f, "-overlay=")
+			}
+		}
+	}
+	if path == "" {
+		return out
+	}
+	b, err := os.ReadFile(path)
+	if err != nil {
+		return out
+	}
+	var ov struct{ Replace map[string]string }
+	if json.Unmarshal(b, &ov) == nil {
+		for k, v := range ov.Replace {
+			out[k] = v
+		}
+	}
+	return out
+}
+
+func parseSingle() ([]*ast.File, error) {
+	dir := singleDir()
+	ov := overlayMap()
+	ents, err := os.ReadDir(dir)
+	if err != nil {
+		return nil, err
+	}
+	names := map[string]bool{}
+	for _, e := range ents {
+		names[filepath.Join(dir, e.Name())] = true
+	}
+	for k := range ov { // files that exist only in the overlay
+		if filepath.Dir(k) == dir {
+			names[k] = true
+		}
+	}
+	var sorted []string
+	for n := range names {
+		sorted = append(sorted, n)
+	}
+	sort.Strings(sorted)
+	fset := token.NewFileSet()
+	var files []*ast.File
+	for _, n := range sorted {
+		base := filepath.Base(n)
+		if !strings.HasSuffix(base, ".go") || strings.HasSuffix(base, "_test.go") || strings.HasPrefix(base, "verif_hooks") {
+			continue
+		}
+		src := n
+		if r, ok := ov[n]; ok {
+			if r == "" {
+				continue
+			}
+			src = r
+		}
+		b, err := os.ReadFile(src)
+		if err != nil {
+			return nil, err
+		}
+		f, err := parser.ParseFile(fset, n, b, parser.SkipObjectResolution)
+		if err != nil {
+			return nil, err
+		}
+		files = append(files, f)
+	}
+	return files, nil
+}
+
+// recvOf returns the receiver's name and type name ("" for a plain function) and whether it is a pointer receiver.
+func recvOf(fd *ast.FuncDecl) (name, typ string, ptr bool) {
+	if fd.Recv == nil || len(fd.Recv.List) != 1 {
+		return "", "", false
+	}
+	f := fd.Recv.List[0]
+	if len(f.Names) == 1 {
+		name = f.Names[0].Name
+	}
+	t := f.Type
+	if s, ok := t.(*ast.StarExpr); ok {
+		ptr, t = true, s.X
+	}
+	if id, ok := t.(*ast.Ident); ok {
+		typ = id.Name
+	}
+	return
+}
+
+// isMuCall reports whether e is the call <recv>.mu.<method>().
+func isMuCall(e ast.Expr, recv, method string) bool {
+	c, ok := e.(*ast.CallExpr)
+	if !ok || len(c.Args) != 0 {
+		return false
+	}
+	s, ok := c.Fun.(*ast.SelectorExpr)
+	if !ok || s.Sel.Name != method {
+		return false
+	}
+	m, ok := s.X.(*ast.SelectorExpr)
+	if !ok || m.Sel.Name != "mu" {
+		return false
+	}
+	id, ok := m.X.(*ast.Ident)
+	return ok && id.Name == recv && recv != "" && recv != "_"
+}
+
+// holdsMutexThroughout: pointer receiver, first statement `<recv>.mu.Lock()`, second `defer <recv>.mu.Unlock()`,
+// no other use of <recv>.mu, no goroutine and no function literal (which could outlive the critical section).
+func holdsMutexThroughout(fd *ast.FuncDecl) bool {
+	recv, _, ptr := recvOf(fd)
+	if !ptr || fd.Body == nil || len(fd.Body.List) < 2 {
+		return false
+	}
+	first, ok := fd.Body.List[0].(*ast.ExprStmt)
+	if !ok || !isMuCall(first.X, recv, "Lock") {
+		return false
+	}
+	second, ok := fd.Body.List[1].(*ast.DeferStmt)
+	if !ok || !isMuCall(second.Call, recv, "Unlock") {
+		return false
+	}
+	muUses, bad := 0, false
+	ast.Inspect(fd.Body, func(n ast.Node) bool {
+		switch x := n.(type) {
+		case *ast.GoStmt, *ast.FuncLit:
+			bad = true
+		case *ast.SelectorExpr:
+			if id, ok := x.X.(*ast.Ident); ok && id.Name == recv && x.Sel.Name == "mu" {
+				muUses++
+			}
+		}
+		return true
+	})
+	return !bad && muUses == 2
+}
+
+var queueFields = map[string]bool{"queue": true, "mu": true, "db": true, "maxQueueSize": true}
+
+func lockFacts() (string, error) {
+	files, err := parseSingle()
+	if err != nil {
+		return "", err
+	}
+	type qm struct {
+		name string
+		ok   bool
+	}
+	type sc struct {
+		name  string
+		calls int
+		pure  bool
+	}
+	var qms []qm
+	var scs []sc
+	escapes := 0
+	for _, f := range files {
+		for _, d := range f.Decls {
+			fd, ok := d.(*ast.FuncDecl)
+			if !ok || fd.Body == nil {
+				continue
+			}
+			recv, typ, _ := recvOf(fd)
+			if typ == "BatchQueue" {
+				qms = append(qms, qm{fd.Name.Name, holdsMutexThroughout(fd)})
+				continue
+			}
+			if typ == "" && fd.Name.Name == "NewBatchQueue" {
+				continue // the constructor: the queue is not shared yet
+			}
+			// anybody else reaching into the queue's fields: <x>.queue.<field of BatchQueue>
+			calls, pure := 0, true
+			ast.Inspect(fd.Body, func(n ast.Node) bool {
+				switch x := n.(type) {
+				case *ast.SelectorExpr:
+					if in, ok := x.X.(*ast.SelectorExpr); ok && in.Sel.Name == "queue" && queueFields[x.Sel.Name] {
+						escapes++
+					}
+				case *ast.CallExpr:
+					if s, ok := x.Fun.(*ast.SelectorExpr); ok {
+						if in, ok := s.X.(*ast.SelectorExpr); ok && in.Sel.Name == "queue" {
+							if id, ok := in.X.(*ast.Ident); ok && id.Name == recv && recv != "" {
+								calls++
+							}
+						}
+					}
+				case *ast.ForStmt, *ast.RangeStmt, *ast.GoStmt, *ast.FuncLit:
+					pure = false // a queue call could run more than once / outside the call
+				case *ast.AssignStmt:
+					for _, l := range x.Lhs {
+						if rootedAt(l, recv) {
+							pure = false
+						}
+					}
+				case *ast.IncDecStmt:
+					if rootedAt(x.X, recv) {
+						pure = false
+					}
+				}
+				return true
+			})
+			if typ == "Sequencer" && calls > 0 {
+				scs = append(scs, sc{fd.Name.Name, calls, pure})
+			}
+		}
+	}
+	sort.Slice(qms, func(i, j int) bool { return qms[i].name < qms[j].name })
+	sort.Slice(scs, func(i, j int) bool { return scs[i].name < scs[j].name })
+	var b strings.Builder
+	b.WriteString("/-- every method of `BatchQueue` in the current source; `true` = pointer receiver, first statement `bq.mu.Lock()`, second `defer bq.mu.Unlock()`, no other use of the mutex, no goroutine / function literal -/\n")
+	var parts []string
+	for _, m := range qms {
+		parts = append(parts, fmt.Sprintf("(%s, %v)", hx.LeanString(m.name), m.ok))
+	}
+	fmt.Fprintf(&b, "def queueMethods : List (String × Bool) := [%s]\n", strings.Join(parts, ", "))
+	b.WriteString("/-- places outside `BatchQueue`'s methods and constructor that select a field of a `BatchQueue` (`x.queue.{queue,mu,db,maxQueueSize}`) -/\n")
+	fmt.Fprintf(&b, "def queueFieldEscapes : Nat := %d\n", escapes)
+	b.WriteString("/-- the `Sequencer` methods that call the queue: number of call sites `c.queue.M(…)`; `true` = no loop / goroutine / function literal and no assignment to a field of the receiver -/\n")
+	parts = nil
+	for _, m := range scs {
+		parts = append(parts, fmt.Sprintf("(%s, %d, %v)", hx.LeanString(m.name), m.calls, m.pure))
+	}
+	fmt.Fprintf(&b, "def sequencerQueueCalls : List (String × Nat × Bool) := [%s]\n", strings.Join(parts, ", "))
+	return b.String(), nil
+}
+
+// rootedAt: e is <recv>.f, <recv>.f.g, <recv>.f[i] …
+func rootedAt(e ast.Expr, recv string) bool {
+	if recv == "" {
+		return false
+	}
+	for {
+		switch x := e.(type) {
+		case *ast.SelectorExpr:
+			if id, ok := x.X.(*ast.Ident); ok {
+				return id.Name == recv
+			}
+			e = x.X
+		case *ast.IndexExpr:
+			e = x.X
+		case *ast.StarExpr:
+			e = x.X
+		case *ast.ParenExpr:
+			e = x.X
+		default:
+			return false
+		}
+	}
 }
